@@ -174,6 +174,21 @@ claim("C05", "other",
       "effective-visibility/API inventory + decision-table extraction + ordering enumeration + caller inventories",
       "DESIGN.md §3 C05")
 
+claim("C09", "other",
+      "Panic inventory over the compiler's MIR: all panic-capable sites (Assert terminators, calls to a table of panicking "
+      "std/bytes callees, diverging calls from assert!/panic!) reachable in the call graph from the datagram entry points "
+      "(UDP receive, message decode, process_message, reply serialisation) — 85 sites in 181 functions on the pinned tree — "
+      "must each be discharged: additive 64-bit overflow, constant operands, or a table row that is guarded and mechanically "
+      "re-verified (amount <= buffer length implied by path conditions, successful get(..n) before consume/advance(n), "
+      "char-boundary construction of str ranges), implied by a rule run in the same check (decoder invariant R09.3, "
+      "assertions implied for ARBITRARY deltas R09.4, own heartbeat never set from the wire), or argued per confirmed site "
+      "count. Unlisted sites, extra sites of an argued kind and lost guards are violations.",
+      "Relative to the panicking-callee table: panics inside zstd/tokio/std beyond it, memory exhaustion and poisoning of "
+      "state by well-formed lies are not covered. Assumes the property's precondition (own digest fits a datagram) and a "
+      "failure-detector window size >= 1.",
+      "call-graph reachability + panic-site inventory over MIR + mechanical guard re-verification on extracted path conditions",
+      "DESIGN.md §3 C09, §2.6")
+
 ALL = ["C%02d" % i for i in range(1, 21)]
 PENDING_REASON = "check under construction in this session (rules designed in DESIGN.md §3, not yet armed)"
 
